@@ -172,3 +172,8 @@ CASES += [
         ("quantarhei/qm/corfunctions/correlationfunctions.py", "                    prms = {}\n                    for key in params.keys():\n                        if key in self.energy_params:\n                            prms[key] = self.convert_energy_2_internal_u(params[key])\n                        else:\n                            prms[key] = params[key]\n                            \n                except:",
          "                    if self.manager.get_current_units(\"energy\") == \"int\":\n                        prms = params\n                    else:\n                        prms = {}\n                        for key in params.keys():\n                            if key in self.energy_params:\n                                prms[key] = self.convert_energy_2_internal_u(params[key])\n                            else:\n                                prms[key] = params[key]\n                            \n                except:", 1)]},
 ]
+
+CASES += [
+    {"name": "value-defined spectral density adds the raw reorganisation energy (the repaired defect)", "kind": "mutant", "rule": "C09-E", "edits": [
+        ("quantarhei/qm/corfunctions/spectraldensities.py", "                    self.lamb += cprm[\"reorg\"]", "                    self.lamb += p[\"reorg\"]", 1)]},
+]
